@@ -1,22 +1,25 @@
 /-
   Proofs.C06 — proofs behind Props/C06.lean.
 
-  The first formulations of `step_uniq_inv` (hypotheses `UniqInv c`, `ScalarInv c`,
-  `ScalarInv c'` only) and of `dup_write_rejected` (conclusion: a WriteError) are FALSE of the
-  model: `Proofs/C06Check.lean` (`step_uniq_scalar_false`, `dup_write_writeError_false`) and
-  ../COUNTEREXAMPLE_C06.md.  What is proved instead:
+  The unrestricted `step_uniq_inv` and the first formulation of `dup_write_rejected`
+  (conclusion: a WriteError) are FALSE of the model: `Proofs/C06Check.lean` (`step_uniq_false`,
+  `dup_write_writeError_false`).  What is proved:
 
-  * `step_uniq_inv_alt` — with `KeysDistinctSym c`, `PfStable c`, `WfDocs c'` (Spec/Unique.lean);
-    behind it `step_carried`: the invariant `UniqS` ("uniqueness among the well-formed,
+  * `step_uniq_inv_alt` — on the scalar-key domain (`ScalarInv` of the resulting state), with no
+    other hypothesis; behind it `step_carried`: the invariant `UniqS` ("uniqueness among the
     scalar-keyed, covered documents") is preserved by every operation with no hypothesis on the
     documents at all, hence `reachable_uniq_alt` for whole histories;
   * `dup_write_rejected_alt` (always rejected) and `dup_write_rejected_dupkey_alt` (with
     DuplicateKeyError under three more hypotheses);
   * `create_over_dups_fails_clean`, `create_establishes_uniq` as first stated.
 
+  (Until library commit a320edd `_apply_update` stored an edited document that is `==` to the old
+  one without `_ensure_uniques`; the step theorem then needed `KeysDistinctSym`, `PfStable` and
+  `WfDocs`, and was false without them: `Proofs/C06Check.lean`, `ptsColl`.)
+
   Files: C06Scalar (`==` on scalars), C06Bridge (the query of `_ensure_uniques` is key equality),
-  C06Ensure (`_ensure_uniques`), C06Wf (`==` on well-formed values), C06Pairs (`UniqS`),
-  C06Ops / C06Create / C06Update / C06Step (the operations), C06Extra, C06Check.
+  C06Ensure (`_ensure_uniques`), C06Pairs (`UniqS`), C06Ops / C06Create / C06Update / C06Step
+  (the operations), C06Extra, C06Check.
 -/
 import Spec.Unique
 import Proofs.C06Check
@@ -32,25 +35,21 @@ theorem init_uniq : UniqInv ({} : Coll) := by
 /-! ### one operation -/
 
 /-- the carried invariant: no hypothesis on the documents, before or after -/
-theorem step_carried (cfg : Cfg) (now : Int) (c : Coll) (op : Val) (hU : UniqS c)
-    (hk : KeysDistinctSym c) (hp : PfStable c) : UniqS (stepColl cfg now c op).1 :=
-  step_uniqS cfg now c op hU hp hk
+theorem step_carried (cfg : Cfg) (now : Int) (c : Coll) (op : Val) (hU : UniqS c) :
+    UniqS (stepColl cfg now c op).1 :=
+  step_uniqS cfg now c op hU
 
 theorem step_uniq_inv_alt (cfg : Cfg) (now : Int) (c : Coll) (op : Val)
-    (hu : UniqInv c) (hk : KeysDistinctSym c) (hp : PfStable c)
-    (hs' : ScalarInv (stepColl cfg now c op).1) (hw' : WfDocs (stepColl cfg now c op).1) :
+    (hu : UniqInv c) (hs' : ScalarInv (stepColl cfg now c op).1) :
     UniqInv (stepColl cfg now c op).1 :=
-  uniqInv_of_uniqS (step_uniqS cfg now c op (uniqS_of_uniqInv hu) hp hk) hs' hw'
+  uniqInv_of_uniqS (step_uniqS cfg now c op (uniqS_of_uniqInv hu)) hs'
 
-/-- the hypotheses of `step_uniq_inv_alt`, checked by evaluation (no unique index partial) -/
+/-- the hypotheses of `step_uniq_inv_alt`, checked by evaluation -/
 theorem step_uniq_inv_check (cfg : Cfg) (now : Int) (c : Coll) (op : Val)
-    (h : (uniqB c && keysB c && noPartialB c && scalB (stepColl cfg now c op).1 &&
-      wfDocsB (stepColl cfg now c op).1) = true) :
+    (h : (uniqB c && scalB (stepColl cfg now c op).1) = true) :
     UniqInv (stepColl cfg now c op).1 := by
   simp only [Bool.and_eq_true] at h
-  obtain ⟨⟨⟨⟨h1, h2⟩, h3⟩, h4⟩, h5⟩ := h
-  exact step_uniq_inv_alt cfg now c op ((uniqB_iff c).1 h1) ((keysB_iff c).1 h2)
-    (pfStable_of_noPartial h3) ((scalB_iff _).1 h4) ((wfDocsB_iff _).1 h5)
+  exact step_uniq_inv_alt cfg now c op ((uniqB_iff c).1 h.1) ((scalB_iff _).1 h.2)
 
 /-! ### histories -/
 
@@ -72,12 +71,12 @@ theorem run_snd (cfg : Cfg) (ops : List Val) (s : St) : (run cfg ops s).2 = runS
     | cons op ops ih => intro acc s; simp only [List.foldl_cons]; exact ih _ _
   exact this ops [] s
 
-theorem step_st_carried (cfg : Cfg) (s : St) (op : Val) (hU : UniqS s.c)
-    (hk : KeysDistinctSym s.c) (hp : PfStable s.c) : UniqS (step cfg s op).1.c := by
+theorem step_st_carried (cfg : Cfg) (s : St) (op : Val) (hU : UniqS s.c) :
+    UniqS (step cfg s op).1.c := by
   unfold step
   split
   · exact hU
-  · exact step_uniqS cfg s.now s.c op hU hp hk
+  · exact step_uniqS cfg s.now s.c op hU
 
 theorem observe_carried (s : St) (hU : UniqS s.c) : UniqS (observe s).1.c := by
   unfold observe
@@ -86,46 +85,27 @@ theorem observe_carried (s : St) (hU : UniqS s.c) : UniqS (observe s).1.c := by
   · exact hU
 
 theorem runSt_carried (cfg : Cfg) : ∀ (ops : List Val) (s : St), UniqS s.c →
-    (∀ n, KeysDistinctSym (runSt cfg (ops.take n) s).c ∧ PfStable (runSt cfg (ops.take n) s).c) →
     UniqS (runSt cfg ops s).c := by
   intro ops
   induction ops with
-  | nil => intro s hU _; exact hU
+  | nil => intro s hU; exact hU
   | cons op ops ih =>
-    intro s hU hd
-    have h0 := hd 0
-    simp only [List.take_zero, runSt, List.foldl_nil] at h0
+    intro s hU
     have hU1 : UniqS (observe (step cfg s op).1).1.c :=
-      observe_carried _ (step_st_carried cfg s op hU h0.1 h0.2)
-    have := ih (observe (step cfg s op).1).1 hU1 (fun n => by
-      have := hd (n + 1)
-      simpa [runSt] using this)
+      observe_carried _ (step_st_carried cfg s op hU)
+    have := ih (observe (step cfg s op).1).1 hU1
     simpa [runSt] using this
 
 theorem reachable_uniq_alt (cfg : Cfg) (ops : List Val)
-    (hd : ∀ n, KeysDistinctSym (run cfg (ops.take n)).2.c ∧ PfStable (run cfg (ops.take n)).2.c)
-    (hs : ScalarInv (run cfg ops).2.c) (hw : WfDocs (run cfg ops).2.c) :
-    UniqInv (run cfg ops).2.c := by
-  refine uniqInv_of_uniqS ?_ hs hw
+    (hs : ScalarInv (run cfg ops).2.c) : UniqInv (run cfg ops).2.c := by
+  refine uniqInv_of_uniqS ?_ hs
   rw [run_snd]
-  refine runSt_carried cfg ops {} (fun ix hix => by cases hix) (fun n => ?_)
-  rw [← run_snd]; exact hd n
+  exact runSt_carried cfg ops {} (fun ix hix => by cases hix)
 
-/-- the hypotheses of `reachable_uniq_alt`, checked by evaluation on a concrete history -/
+/-- the hypothesis of `reachable_uniq_alt`, checked by evaluation on a concrete history -/
 theorem reachable_uniq_check (cfg : Cfg) (ops : List Val)
-    (h : ((List.range (ops.length + 1)).all (fun n =>
-        keysB (run cfg (ops.take n)).2.c && noPartialB (run cfg (ops.take n)).2.c) &&
-      scalB (run cfg ops).2.c && wfDocsB (run cfg ops).2.c) = true) :
-    UniqInv (run cfg ops).2.c := by
-  simp only [Bool.and_eq_true, List.all_eq_true, List.mem_range] at h
-  obtain ⟨⟨h1, h2⟩, h3⟩ := h
-  refine reachable_uniq_alt cfg ops (fun n => ?_) ((scalB_iff _).1 h2) ((wfDocsB_iff _).1 h3)
-  by_cases hn : n < ops.length + 1
-  · exact ⟨(keysB_iff _).1 (h1 n hn).1, pfStable_of_noPartial (h1 n hn).2⟩
-  · rw [List.take_of_length_le (by omega)]
-    have := h1 ops.length (by omega)
-    rw [List.take_length] at this
-    exact ⟨(keysB_iff _).1 this.1, pfStable_of_noPartial this.2⟩
+    (h : scalB (run cfg ops).2.c = true) : UniqInv (run cfg ops).2.c :=
+  reachable_uniq_alt cfg ops ((scalB_iff _).1 h)
 
 /-! ### a duplicate write is rejected -/
 
